@@ -22,6 +22,7 @@ ASSUMPTIONS = ["frequency verdicts are statistical: 6-sigma band, seeds fixed by
                "committed inputs/robot_*.py are compared with regenerated boards as an observation only (they predate the current generator)"]
 TIMEOUT = 1800
 P_LOOSE = [.01, .1, .3, .5, .9, .99]
+P_FREQ = P_LOOSE + [.004, .0075, .125, .333, .29, .995]
 
 
 def validate_board(moves, rewards, loose, length, width, max_reward, fd):
@@ -105,7 +106,7 @@ def decide_board(idx, seed0):
 
 def decide_freq(idx, seed0, tier):
     rg = monitors.mods()["roberta_generator"]
-    pl = P_LOOSE[idx % len(P_LOOSE)]
+    pl = P_FREQ[idx % len(P_FREQ)]
     need = 2 * 10 ** 5 if tier == "quick" else 2 * 10 ** 6
     rng = games.case_rng(seed0, PID, "FREQ", idx)
     tiles = loose = 0
@@ -142,6 +143,15 @@ def boundary_cases():
             for val, ok in ((-0.1, False), (0.0, False), (5e-324, True), (1e-9, True), (1 - 1e-16, True), (1.0, False), (1.5, False),
                             (float("inf"), False), (float("-inf"), False), (float("nan"), False)):
                 cases.append((dict(b, **{nm: val}), ok, "%s=%r" % (nm, val)))
+    # two parameters out of range at once (a check that combines parameters must still refuse)
+    outside = {"seed": [-1, -7], "width": [-1, -2, 0], "length": [-1, -3, 0], "max_reward": [-1, 0],
+               "p_robot": [-0.5, 1.0], "p_light": [0.0, 2.0], "p_tile": [-1.0, 1.0], "p_loose": [0.0, 1.5]}
+    names = list(outside)
+    for i in range(len(names)):
+        for j in range(i + 1, len(names)):
+            for vi in outside[names[i]]:
+                for vj in outside[names[j]]:
+                    cases.append((dict(base, **{names[i]: vi, names[j]: vj}), False, "%s=%r,%s=%r" % (names[i], vi, names[j], vj)))
     return cases
 
 
@@ -222,9 +232,9 @@ def decide_repo(idx):
 def plan(tier, seed):
     q = tier == "quick"
     b = harness.split("BOARD", 600 if q else 6000, 40 if q else 200)
-    b += harness.split("FREQ", 6 if q else 12, 1)
-    b += harness.split("BOUND", len(BOUNDARY), 12)
-    b += harness.split("BOUNDSUB", len(BOUNDARY), 12 if not q else 12, stride=1 if not q else 5)
+    b += harness.split("FREQ", len(P_FREQ) if q else 2 * len(P_FREQ), 1)
+    b += harness.split("BOUND", len(BOUNDARY), 24)
+    b += harness.split("BOUNDSUB", len(BOUNDARY), 24, stride=1 if not q else 9)
     b += harness.split("REPO", 25, 25)
     return b
 
